@@ -35,6 +35,9 @@ structure SRule where
 structure SpecSt where
   flow : List (String × List SRule) := []
   iso : List (String × List IsoRule) := []
+  sys : List SysRule := []
+  load : F64 := F64.zero
+  cpu : F64 := F64.zero
   admitted : List (String × Nat × Nat × Nat) := []     -- res, time ms, tokens, seq
   seq : Nat := 0
   events : List (String × Nat × Ev) := []              -- node name, time, event
@@ -64,6 +67,20 @@ structure St where
   sp : SpecSt := {}
   deriving Inhabited
 
+/-- the system slot's observation computed from the implementation's own pass / exit history of inbound entries -/
+def specSysObs (sp : SpecSt) (t : Nat) : SysObs :=
+  let evs : List TEv := (sp.events.filter (fun e => e.1 == "__inbound__")).map (fun e => e.2)
+  let hi := t - t % 500
+  let lo := hi - 1000 + 500
+  let sum := fun k => windowSum 500 evs lo hi k
+  let xb := max (windowSum 500 evs lo lo .complete) (windowSum 500 evs hi hi .complete)
+  { qps := F64.div (F64.ofNat (sum .pass)) defaultReader.intervalS,
+    conc := openInbound sp,
+    avgRt := if sum .complete = 0 then F64.zero else F64.div (F64.ofNat (sum .rt)) (F64.ofNat (sum .complete)),
+    load := sp.load, cpu := sp.cpu,
+    maxComplete := F64.mul (F64.div (F64.mul (F64.ofNat xb) (F64.ofNat 2)) (F64.ofNat 1000)) (F64.ofNat 1000),
+    minRt := F64.ofNat (windowMinRt 500 evs lo hi) }
+
 def renderBuild : BuildRes → String
   | .pass => "pass"
   | .blocked ty rule snap => s!"blocked type={ty} rule={rule} snap={snap}"
@@ -81,6 +98,17 @@ def parseFlowRules (l : List String) : Except String (List (String × F64 × Nat
       pure (id, F64.roundDiv f.num f.den, i)
     | _ => .error s!"bad-op: flow rule {s}")
 
+def parseSysRules (l : List String) : Except String (List SysRule) :=
+  l.mapM (fun s => match s.splitOn ":" with
+    | [id, m, st, thr] => do
+      let metric ← (match m with
+        | "load" => .ok SysMetric.load | "avgrt" => .ok .avgRt | "conc" => .ok .concurrency
+        | "qps" => .ok .inboundQps | "cpu" => .ok .cpuUsage
+        | _ => .error s!"bad-op: metric {m}" : Except String SysMetric)
+      let f ← parseFrac "thr" thr
+      pure ⟨id, metric, st == "bbr", F64.roundDiv f.num f.den⟩
+    | _ => .error s!"bad-op: system rule {s}")
+
 def parseIsoRules (l : List String) : Except String (List IsoRule) :=
   l.mapM (fun s => match s.splitOn ":" with
     | [id, thr] => do let t ← parseNat "thr" thr; pure ⟨id, t⟩
@@ -90,21 +118,31 @@ def reorder {α : Type} (getId : α → String) (l : List α) (ids : List String
   ids.filterMap (fun i => l.find? (fun a => getId a == i))
 
 /-- the Spec for one `build` observation -/
-def specBuild (sp : SpecSt) (res : String) (t n : Nat) (obs : String) : Option String :=
+def specBuild (sp : SpecSt) (res : String) (t n : Nat) (inbound : Bool) (obs : String) : Option String :=
+  let so := specSysObs sp t
+  let sysTripping := if inbound then sp.sys.filter (fun r => (r.trips so).1) else []
+  let sysOk := sysTripping.isEmpty
   let frules := (World.lookup sp.flow res).getD []
   let irules := (World.lookup sp.iso res).getD []
   let conc := openConc sp res
   let flowOk := frules.all (fun r => fits sp res r t n)
   let isoOk := irules.all (fun r => conc + n ≤ r.thr)
   if obs == "pass" then
-    if !flowOk then some s!"admitted although a flow rule's window is exhausted (res {res} t={t} n={n})"
+    if !sysOk then some s!"inbound entry admitted although a system metric trips (rule {(sysTripping.map (·.id))})"
+    else if !flowOk then some s!"admitted although a flow rule's window is exhausted (res {res} t={t} n={n})"
     else if !isoOk then some s!"admitted although in-flight {conc} + {n} exceeds an isolation threshold"
     else none
   else if obs.startsWith "blocked" then
     let ty := obsField obs "type"
     let rule := obsField obs "rule"
     let snap := obsField obs "snap"
-    if flowOk && isoOk then some s!"rejected although the request fits every rule (res {res} t={t} n={n}): {obs}"
+    if flowOk && isoOk && sysOk then some s!"rejected although the request fits every rule (res {res} t={t} n={n} inbound={inbound}): {obs}"
+    else if ty == "SystemFlow" then
+      match sysTripping.find? (fun r => r.id == rule) with
+      | none => some s!"system block names a rule whose metric does not trip (or outbound entry affected): {obs}"
+      | some r =>
+        if snap != World.snapStr (r.trips so).2 then some s!"system block snapshot {snap} is not the observed value {World.snapStr (r.trips so).2}"
+        else none
     else if ty == "Flow" then
       match frules.find? (fun r => r.id == rule) with
       | none => some s!"flow block names no loaded rule: {obs}"
@@ -119,7 +157,7 @@ def specBuild (sp : SpecSt) (res : String) (t n : Nat) (obs : String) : Option S
         if conc + n ≤ r.thr then some s!"isolation block names a rule that is not exceeded: {obs}"
         else if snap != toString conc then some s!"isolation block snapshot {snap} is not the in-flight count {conc}"
         else none
-    else some s!"rejection reported with block type {ty} (expected Flow or Isolation): {obs}"
+    else some s!"rejection reported with block type {ty} (expected SystemFlow, Flow or Isolation): {obs}"
   else some s!"unexpected build observation: {obs}"
 
 /-- the Spec for a `node` observation: accounting computed from the implementation's own pass/block/exit history -/
@@ -176,6 +214,24 @@ def stepCase (st : St) (v : Verdict) (i : Nat) (opText obs : String) : St × Ver
         let rules' := reorder (·.id) rules ids
         ({ w := w.loadIso res rules', sp := { sp with iso := World.update sp.iso res rules' } }, v.addTag "isolation")
     | _, _ => bad "bad-op"
+  | "sys.load" =>
+    match parseSysRules (op.list "rules") with
+    | .ok rules =>
+      let ids := listOf (obsField obs "rules")
+      if !isPerm (rules.map (·.id)) ids then
+        (st, v.setDiff s!"step={i} op=[{opText}] rules held by the implementation are not the loaded rules: [{obs}]")
+      else
+        let rules' := reorder (·.id) rules ids
+        let v := if rules'.any (·.bbr) then v.addTag "bbr-rule" else v
+        ({ w := { w with sys := rules' }, sp := { sp with sys := rules' } }, v.addTag "system-rules")
+    | _ => bad "bad-op"
+  | "sys.set" =>
+    let getF := fun (k : String) (d : F64) => match op.get? k with
+      | some x => (match parseFrac k x with | .ok f => F64.roundDiv f.num f.den | .error _ => d)
+      | none => d
+    let l := getF "load" w.load
+    let c := getF "cpu" w.cpu
+    ({ w := { w with load := l, cpu := c }, sp := { sp with load := l, cpu := c } }, v.expect i opText "ok" obs)
   | "build" =>
     match op.nat "e", op.str "res", op.natD "batch" 1 with
     | .ok eid, .ok res, .ok batch =>
@@ -183,8 +239,11 @@ def stepCase (st : St) (v : Verdict) (i : Nat) (opText obs : String) : St × Ver
       let t := w.nowMs
       let (w', r) := w.build eid res batch inbound
       let v := v.expect i opText (renderBuild r) obs
-      let v := match specBuild sp res t batch obs with | some m => v.setViol s!"step={i} {m}" | none => v
-      let v := if obs == "pass" then v.addTag "pass" else if obsField obs "type" == "Flow" then v.addTag "flow-block" else v.addTag "other-block"
+      let v := match specBuild sp res t batch inbound obs with | some m => v.setViol s!"step={i} {m}" | none => v
+      let v := if obs == "pass" then v.addTag "pass" else if obsField obs "type" == "Flow" then v.addTag "flow-block"
+        else if obsField obs "type" == "SystemFlow" then v.addTag s!"system-block" else v.addTag "other-block"
+      let v := if obs == "pass" && inbound && !sp.sys.isEmpty then v.addTag "system-pass" else v
+      let v := if !inbound && !sp.sys.isEmpty && (sp.sys.any (fun r => (r.trips (specSysObs sp t)).1)) then v.addTag "outbound-while-tripping" else v
       let v := if t % 500 == 0 then v.addTag "arrival-on-boundary" else v
       let nodeNames := if inbound then [res, "__inbound__"] else [res]
       let sp' := if obs == "pass" then
